@@ -29,7 +29,7 @@ from lib import tlc
 
 LEVEL = "fault_enumeration"
 CHANNELS = ["att", "smp", "le_sig", "classic_sig", "sdp", "rfcomm", "hfp_ag", "hfp_hf", "avdtp", "avctp", "le_coc", "hci"]
-INVARIANTS = ["TypeOK", "AliveUnlessDisconnected", "OnlyOnOpenChannel", "ProbeStartsClean", "EndsAnswered"]
+INVARIANTS = ["TypeOK", "AliveUnlessDisconnected", "OnlyOnOpenChannel", "ProbeStartsClean", "SameChannelUnlessPartial", "EndsAnswered"]
 WORKERS = max(2, min(12, (os.cpu_count() or 4) - 2))
 QUICK_CAP = 200  # quick tier: at most that many instances of an enumerated class per channel and shape (every list is shorter today)
 
@@ -324,7 +324,7 @@ def run(ctx, rep):
                 "distinct = distinct (channel, observed event sequence incl. classes, instance names and outcomes)")
     rep.assumptions = ["the byte space is sampled (seeded mutations of valid PDUs, structured faults); exhaustive are the fault classes x channels x probe, all class sequences up to length 2 (quick) / 3 (thorough), and the listed instances of the classes made of well-formed PDUs (quick: at most 200 per channel, class and phase: all of them today)",
                        "the reference request is the complete transaction of the channel (pairing legacy + Secure Connections with keys on both sides; read + write + notification; a new DLC / L2CAP channel opened, data both ways, closed; full AT exchange; SDP search with continuation; AVDTP stream configured and released), made by the attacking device's own stack where it needs one",
-                       "the reference request is preceded by the channel's unit delimiter when the garbage ended inside a unit; on an LE credit based channel (no delimiter) the probe uses a fresh channel of the same SPSM",
+                       "the reference request is preceded by the channel's unit delimiter when the garbage ended inside a unit; on an LE credit based channel (no delimiter) the probe uses a fresh channel of the same SPSM after a unit that may end inside an SDU, and the SAME channel (if the victim left it open) after units made of complete SDUs only (coc_sdu_over_mtu: SDU length above the receiver's MTU, sent within the credits granted)",
                        "a transaction the injected units started (read from their bytes: Pairing Request, Prepare Write, PN / SABM, Connection Request, Set Configuration) is abandoned by the peer the ordinary way (Pairing Failed, Execute Write cancel, DISC, Disconnection Request, Abort) before the reference request",
                        "a channel closed by the victim in a way its peer is told about is not a violation: it is opened again by the ordinary procedure, which must succeed",
                        "virtual-time event loop; the 2 s budget per injected unit is CPU time of the process (plus a 30 s wall-clock backstop for blocking code): the only clock dependence, and a time-out is a violation by itself"]
